@@ -78,6 +78,7 @@ type runner struct {
 	ctl      *Ctl
 	procs    map[string]*Proc
 	inLock   map[string]bool
+	scanned  map[string]bool    // the snapshot read of the current lock section has been taken
 	snaps    [][]map[string]any // log after every controller step
 	rwin     map[string][2]int  // reader -> [first, last] snapshot index
 	torn     string
@@ -137,6 +138,7 @@ func (r *runner) track(name string, rec *HookRec) {
 	switch rec.Point {
 	case "lock.acquired":
 		r.inLock[name] = true
+		r.scanned[name] = false
 	case "lock.released":
 		r.inLock[name] = false
 	}
@@ -164,7 +166,12 @@ func (r *runner) advance(name string) {
 	rec := p.RunTo(func(h HookRec) bool {
 		r.track(name, &h)
 		if h.Point == "read.scanned" {
-			return r.inLock[name]
+			// only the first read of a lock section is the model's snapshot
+			if r.inLock[name] && !r.scanned[name] {
+				r.scanned[name] = true
+				return true
+			}
+			return false
 		}
 		return writerPoints[h.Point]
 	})
@@ -245,7 +252,7 @@ func (e *Env) realise(tag string, scn Scenario, sched [][]string, workdir string
 		return nil, err
 	}
 	defer ctl.Close()
-	r := &runner{e: e, scn: scn, st: st, ids: ids, ctl: ctl, procs: map[string]*Proc{}, inLock: map[string]bool{},
+	r := &runner{e: e, scn: scn, st: st, ids: ids, ctl: ctl, procs: map[string]*Proc{}, inLock: map[string]bool{}, scanned: map[string]bool{},
 		rwin: map[string][2]int{}, torn: "none"}
 	r.snapshot()
 	for _, s := range sched {
@@ -313,6 +320,41 @@ func (e *Env) realise(tag string, scn Scenario, sched [][]string, workdir string
 		}
 		pr.Cmd = c
 		o.Procs = append(o.Procs, pr)
+	}
+	// a creating command that printed no reply (killed, failed): its fresh ids
+	// are the create events nobody else accounts for
+	{
+		had := map[string]bool{}
+		for _, ev := range plPre.events {
+			if t := ev["type"]; t == "new_task" || t == "new_epic" {
+				had[fmt.Sprint(ev["id"])] = true
+			}
+		}
+		for _, pr := range o.Procs {
+			for _, id := range pr.Cmd.strs("newids") {
+				if pr.Reply.ID != "" {
+					had[id] = true
+				}
+			}
+		}
+		var fresh []string
+		for _, ev := range plPost.events {
+			if t := ev["type"]; (t == "new_task" || t == "new_epic") && !had[fmt.Sprint(ev["id"])] {
+				fresh = append(fresh, fmt.Sprint(ev["id"]))
+				had[fmt.Sprint(ev["id"])] = true
+			}
+		}
+		silent := -1
+		count := 0
+		for i, pr := range o.Procs {
+			if nm := pr.Cmd.name(); (nm == "new_task" || nm == "new_epic" || nm == "plan") && pr.Reply.ID == "" {
+				silent = i
+				count++
+			}
+		}
+		if count == 1 && len(fresh) > 0 {
+			o.Procs[silent].Cmd["newids"] = fresh
+		}
 	}
 	for _, n := range rnames {
 		p := r.procs[n]
